@@ -26,8 +26,9 @@ package main
 //	push <id>                    real pushConnection / pushConnectionDelta with the request of the last `change`
 //	dump <id>                    real connectionConfigDump (body of /debug/config_dump?proxyID=)
 //	dumptypes <id>               real getConfigDumpByResourceType(con, nil, ...) (…&types=cds,rds,eds,sds)
-//	check <id>                   the property: a reader with the attributes of <id>, the CURRENT global context and
-//	                             Start = now generates CDS+EDS+RDS+SDS through the server's generators (shared
+//	warm <id>                    the connection requests cds, eds, rds, sds (real processRequest / processDeltaRequest)
+//	check <id>                   the property: a PASSIVE reader (zero Start: its Adds are no-ops, only the real writers
+//	                             fill the cache) with the attributes of <id> and the CURRENT global context generates CDS+EDS+RDS+SDS through the server's generators (shared
 //	                             cache) and through uncached twins; answer eq | diff:<resource>
 //
 // The Lean driver (spec side, theorems never_stale / cache_invisible) answers `eq` for every check.
@@ -166,6 +167,21 @@ func (a *ambientStub) AddressInformation(addrs sets.String) ([]model.AddressInfo
 	return out, nil
 }
 
+// The service cl.default.svc.cluster.local has a waypoint (the HTTP port of a.example.com) and asks ingress gateways to
+// use it: ROUTERS get the waypoint's endpoints for its EDS cluster, sidecars its own (EndpointBuilder.findServiceWaypoint:
+// the proxy type decides).
+func (a *ambientStub) ServicesWithWaypoint(key string) []model.ServiceWaypointInfo {
+	if os.Getenv("C06_WAYPOINT") == "" || key != "default/cl.default.svc.cluster.local" { // off by default, see notes/C06.md round 5
+		return nil
+	}
+	return []model.ServiceWaypointInfo{{
+		Service: &workloadapi.Service{Name: "cl", Namespace: "default", Hostname: "cl.default.svc.cluster.local",
+			Waypoint: &workloadapi.GatewayAddress{HboneMtlsPort: 80}},
+		IngressUseWaypoint: true,
+		WaypointHostname:   "a.example.com",
+	}}
+}
+
 func (a *ambientStub) toggle(addr string) {
 	a.mu.Lock()
 	defer a.mu.Unlock()
@@ -274,8 +290,8 @@ var cfgHome = map[string]struct {
 	"dr-a": {gvk.DestinationRule, "default"}, "dr-b": {gvk.DestinationRule, "ns-b"}, "dr-a-nsb": {gvk.DestinationRule, "ns-b"},
 	"dr-sel": {gvk.DestinationRule, "default"}, "dr-dns": {gvk.DestinationRule, "default"},
 	"dr-hash": {gvk.DestinationRule, "default"}, "dr-tls": {gvk.DestinationRule, "default"}, "dr-new": {gvk.DestinationRule, "default"},
-	"dr-a-sel": {gvk.DestinationRule, "default"},
-	"vs-new":   {gvk.VirtualService, "default"}, "ef-new": {gvk.EnvoyFilter, "default"}, "vs-new-b": {gvk.VirtualService, "default"},
+	"dr-a-sel": {gvk.DestinationRule, "default"}, "dr-b2": {gvk.DestinationRule, "ns-b"},
+	"vs-new": {gvk.VirtualService, "default"}, "ef-new": {gvk.EnvoyFilter, "default"}, "vs-new-b": {gvk.VirtualService, "default"},
 	"se-new": {gvk.ServiceEntry, "default"}, "pa-new": {gvk.PeerAuthentication, "default"}, "sc-new": {gvk.Sidecar, "default"},
 	"pa-sel": {gvk.PeerAuthentication, "default"}, "sc-paview": {gvk.Sidecar, "default"},
 	"vs-a": {gvk.VirtualService, "default"}, "vs-b": {gvk.VirtualService, "ns-b"}, "vs-c-src": {gvk.VirtualService, "default"},
@@ -444,6 +460,8 @@ func (w *writersWorld) changeConfig(which string, n int) (model.ConfigKey, bool)
 		base = "se-c"
 	case "dr-a-subset":
 		base = "dr-a"
+	case "dr-b2-subset":
+		base = "dr-b2"
 	case "se-dns-ep", "se-dns-res", "se-dns-san":
 		base = "se-dns"
 	case "se-b-ep":
@@ -471,6 +489,11 @@ func (w *writersWorld) changeConfig(which string, n int) (model.ConfigKey, bool)
 					HashKey: &networking.LoadBalancerSettings_ConsistentHashLB_HttpHeaderName{HttpHeaderName: fmt.Sprintf("x-user-%d", n)},
 				},
 			}}
+		case "dr-b2-subset": // the SECOND rule of a merged DestinationRule (dr-b + dr-b2): the pool of its subset cluster
+			for _, ss := range spec.Subsets {
+				ss.TrafficPolicy = &networking.TrafficPolicy{ConnectionPool: &networking.ConnectionPoolSettings{
+					Tcp: &networking.ConnectionPoolSettings_TCPSettings{MaxConnections: int32(200 + n)}}}
+			}
 		case "dr-a-subset": // the ENDPOINTS of the subset clusters of a.example.com are selected by these labels
 			for _, ss := range spec.Subsets {
 				if ss.Name == "v1" {
@@ -894,6 +917,24 @@ func (w *writersWorld) apply(f []string) string {
 			return "err"
 		}
 		return "ok"
+	case f[0] == "warm" && len(f) == 2:
+		// the connection asks for everything (real processRequest / processDeltaRequest): the REAL writers fill the cache
+		c := w.conns[f[1]]
+		if c == nil {
+			return "bad-op"
+		}
+		n := 1
+		if c.delta {
+			n = 2 // a delta connection subscribes half of the names per request
+		}
+		for _, t := range []string{"cds", "eds", "rds", "sds"} {
+			for i := 0; i < n; i++ {
+				if r := w.apply([]string{"request", f[1], t}); r != "ok" {
+					return r
+				}
+			}
+		}
+		return "ok"
 	case f[0] == "change" && len(f) == 3:
 		w.flushEp()
 		n, _ := strconv.Atoi(f[2])
@@ -1031,9 +1072,9 @@ func (w *writersWorld) apply(f []string) string {
 			ctx0, in0 := s.PushContext(), s.Discovery.InboundUpdates.Load()
 			reader = w.reader(c.attrs, fmt.Sprintf("reader%d-%d", w.nreader, try))
 			h0, _ = w.rec.counts()
-			warm = w.generateWith(w.gens, reader)
+			warm = w.readWith(w.gens, reader) // passive: reads the cache, never writes it
 			h1, m1 = w.rec.counts()
-			cold = w.generateWith(w.twins, reader)
+			cold = w.readWith(w.twins, reader)
 			if s.PushContext() == ctx0 && s.Discovery.InboundUpdates.Load() == in0 && s.Discovery.CommittedUpdates.Load() >= in0 {
 				break
 			}
@@ -1071,7 +1112,7 @@ func (w *writersWorld) apply(f []string) string {
 	return "bad-op"
 }
 
-var changeable = []string{"dr-a", "dr-b", "dr-a-nsb", "dr-sel", "dr-a-sel", "vs-a", "vs-b", "vs-c-src", "se-a-ep", "se-b-ep", "se-a-port", "se-a-addr", "se-c-addr",
+var changeable = []string{"dr-b2-subset", "dr-b2-subset", "dr-a", "dr-b", "dr-a-nsb", "dr-sel", "dr-a-sel", "vs-a", "vs-b", "vs-c-src", "se-a-ep", "se-b-ep", "se-a-port", "se-a-addr", "se-c-addr",
 	"se-dns-ep", "se-dns-res", "se-dns-san", "secret-b", "secret-nsb", "secret-cacert", "dr-hash", "dr-hash", "dr-a-subset", "dr-a-subset", "dr-tls", "configmap", "secret-toggle",
 	"ef-labels", "ef-labels", "ef-version", "pa-default", "pa-nsb", "secret"}
 var toggleable = []string{"dr-a", "dr-b", "dr-sel", "dr-a-sel", "dr-a-nsb", "dr-dns", "vs-a", "vs-b", "vs-c-src", "vs-hb-srcns", "sc-b", "sc-reg", "sc-egress", "sc-any", "sc-labelled",
@@ -1080,7 +1121,7 @@ var toggleable = []string{"dr-a", "dr-b", "dr-sel", "dr-a-sel", "dr-a-nsb", "dr-
 
 // DestinationRules of the mesh (delete; check; create; check per rule: an entry generated while the rule was away must
 // not be served once it is back) and configs that do not exist at first (create; check; delete; check)
-var toggleDRs = []string{"dr-a", "dr-b", "dr-a-nsb", "dr-dns", "dr-hash", "dr-tls", "dr-sel", "dr-a-sel", "dr-new"}
+var toggleDRs = []string{"dr-b2", "dr-a", "dr-b", "dr-a-nsb", "dr-dns", "dr-hash", "dr-tls", "dr-sel", "dr-a-sel", "dr-new"}
 var creatable = []string{"vs-new", "dr-new", "ef-new", "se-new", "pa-new", "pa-sel", "sc-new", "vs-new-b"}
 
 // changes whose effect depends on the proxy: the base proxy variants (mod 4) that see it
@@ -1088,7 +1129,7 @@ var focusChanges = []struct {
 	cfg   string
 	bases []int
 }{
-	{"ef-labels", []int{3}}, {"ef-version", []int{0, 1, 2}}, {"dr-a", []int{0, 2, 3}}, {"dr-a-subset", []int{0, 2, 3}}, {"dr-hash", []int{0, 2, 3}},
+	{"dr-b2-subset", []int{0, 1, 2, 3}}, {"ef-labels", []int{3}}, {"ef-version", []int{0, 1, 2}}, {"dr-a", []int{0, 2, 3}}, {"dr-a-subset", []int{0, 2, 3}}, {"dr-hash", []int{0, 2, 3}},
 	{"dr-a-nsb", []int{1}}, {"dr-b", []int{0, 1, 2, 3}}, {"vs-a", []int{0, 1, 2, 3}}, {"vs-b", []int{1}}, {"dr-tls", []int{0, 2, 3}},
 	{"se-a-ep", []int{0, 1, 2, 3}}, {"se-dns-ep", []int{0, 1, 2, 3}}, {"pa-nsb", []int{1}}, {"pa-default", []int{0, 1, 2, 3}},
 }
@@ -1150,71 +1191,116 @@ func genWriters(seed uint64, n int, path string) {
 				out.Line("check", id)
 			}
 		}
-		nops := 6 + r.Intn(25)
+		// the REAL writers fill the cache (the `check` reader is passive): most connections ask for everything first
+		// (a connection has no LastPushTime before its first push: its requests store nothing until then)
+		out.Line("forcepush", "0")
+		for _, id := range ids {
+			if r.Chance(2, 3) {
+				out.Line("push", id)
+				out.Line("warm", id)
+			}
+		}
+		// pw: the connection gets what is queued for it (real pushConnection: new context, new LastPushTime) and asks again
+		pw := func(id string) {
+			out.Line("push", id)
+			out.Line("warm", id)
+		}
+		epLine := func() {
+			ver++
+			svc := wire.Pick(r, []string{"a", "b", "hb", "nl", "dns"})
+			switch y := r.Intn(12); {
+			case y < 4:
+				out.Line("epupdate", svc, strconv.Itoa(ver))
+			case y < 6:
+				out.Line("epcache", svc, strconv.Itoa(ver))
+			case y < 8:
+				out.Line("epdelete", svc)
+			case y < 10:
+				out.Line("epnew", svc, strconv.Itoa(ver))
+			default:
+				out.Line(wire.Pick(r, []string{"epdelshard", "epprune"}), svc)
+			}
+		}
+		nops := 6 + r.Intn(22)
 		for i := 0; i < nops; i++ {
 			id := wire.Pick(r, ids)
 			switch x := r.Intn(100); {
-			case x < 20:
+			case x < 16:
 				out.Line("request", id, wire.Pick(r, []string{"cds", "eds", "rds", "sds"}))
-			case x < 33:
+			case x < 20:
+				out.Line("warm", id)
+			case x < 31:
 				ver++
 				out.Line("change", wire.Pick(r, changeable), strconv.Itoa(ver))
-				if r.Chance(3, 5) { // the server's own invalidation, before any harness push
+				if r.Chance(1, 3) { // the server's own invalidation, before any harness push
 					out.Line("check", id)
 				}
-			case x < 39:
-				// a change the chosen connection sees, with the cache warm for it before and a check after
+			case x < 38:
+				// a change the chosen connection sees, with the cache filled for it by its own requests before; then the
+				// push and the connection's next requests write again
 				ver++
 				fc := wire.Pick(r, focusChanges)
 				fid := idFor(fc.bases)
-				out.Line("check", fid)
+				pw(fid)
 				out.Line("change", fc.cfg, strconv.Itoa(ver))
 				out.Line("check", fid)
-			case x < 43:
+				if r.Chance(1, 2) {
+					pw(fid)
+					out.Line("check", fid)
+				}
+			case x < 42:
 				out.Line("toggle", wire.Pick(r, toggleable))
-				if r.Chance(3, 5) {
+				if r.Chance(1, 3) {
 					out.Line("check", id)
 				}
 			case x < 47:
-				// delete; check; create; check (or create; check; delete; check for a config that does not exist yet)
+				// delete; (real writers store while it is away); create; check - or create ...; delete; check
 				t := wire.Pick(r, toggleDRs)
 				if r.Chance(1, 3) {
 					t = wire.Pick(r, creatable)
 				}
-				out.Line("check", id)
+				pw(id)
 				out.Line("toggle", t)
 				out.Line("check", id)
+				pw(id)
 				out.Line("toggle", t)
+				out.Line("check", id)
+				pw(id)
 				out.Line("check", id)
 			case x < 50:
 				ver++
 				out.Line(wire.Pick(r, []string{"meshchange", "meshchange", "forcepush"}), strconv.Itoa(ver))
 			case x < 53:
 				ver++
-				out.Line("check", id)
+				pw(id)
 				out.Line("addrupdate", strconv.Itoa(r.Intn(10)))
 				out.Line("check", id)
-			case x < 61:
+				pw(id)
+				out.Line("check", id)
+			case x < 59:
+				// an endpoint event and a config change are merged into ONE queued request; a real writer (push or
+				// request) runs on it with NO read in between; another connection's reader judges what it stored
 				ver++
-				svc := wire.Pick(r, []string{"a", "b", "hb", "nl", "dns"})
-				switch y := r.Intn(12); {
-				case y < 4:
-					out.Line("epupdate", svc, strconv.Itoa(ver))
-				case y < 6:
-					out.Line("epcache", svc, strconv.Itoa(ver))
-				case y < 8:
-					out.Line("epdelete", svc)
-				case y < 10:
-					out.Line("epnew", svc, strconv.Itoa(ver))
-				default:
-					out.Line(wire.Pick(r, []string{"epdelshard", "epprune"}), svc)
+				other := wire.Pick(r, ids)
+				pw(id)
+				epLine()
+				out.Line("change", wire.Pick(r, []string{"dr-a", "dr-b", "dr-a-subset", "vs-a", "se-a-port", "pa-default", "dr-hash", "ef-version", "se-c-addr", "dr-a-nsb"}), strconv.Itoa(ver))
+				if r.Chance(2, 3) {
+					out.Line("push", id)
 				}
+				if r.Chance(1, 2) {
+					out.Line("request", id, wire.Pick(r, []string{"cds", "eds", "rds"}))
+				}
+				out.Line("check", other)
+				out.Line("check", id)
+			case x < 65:
+				epLine()
 				if r.Chance(1, 2) {
 					out.Line("check", id)
 				}
-			case x < 65:
+			case x < 70:
 				out.Line("push", id)
-			case x < 69:
+			case x < 74:
 				// a push overtaken by a newer publish, then a request on the connection
 				ver++
 				out.Line("queue")
@@ -1222,9 +1308,9 @@ func genWriters(seed uint64, n int, path string) {
 				out.Line("pushstale", id)
 				out.Line("request", id, wire.Pick(r, []string{"cds", "rds", "eds"}))
 				out.Line("check", id)
-			case x < 75:
+			case x < 79:
 				out.Line("dump", id)
-			case x < 80:
+			case x < 83:
 				out.Line("dumptypes", id)
 			default:
 				out.Line("check", id)
